@@ -156,13 +156,13 @@ void init(int argc, char** argv, const char* harnessName) {
     printf("%s\n", line);
   }
   if (__sanitizer_set_death_callback) __sanitizer_set_death_callback(deathCallback);
+  else { int sigs[] = { SIGSEGV, SIGBUS, SIGILL, SIGABRT, SIGFPE, SIGTRAP }; for (unsigned i = 0; i < sizeof sigs / sizeof *sigs; ++i) signal(sigs[i], sigHandler); }
   { // gcc links libasan and libubsan as separate shared objects, each with its own copy of the death-callback slot
     void* h = dlopen("libubsan.so.1", RTLD_NOLOAD | RTLD_NOW);
     if (h) { typedef void (*Setter)(void (*)(void)); Setter set = (Setter)dlsym(h, "__sanitizer_set_death_callback"); if (set) set(deathCallback); }
   }
-  else { int sigs[] = { SIGSEGV, SIGBUS, SIGILL, SIGABRT, SIGFPE, SIGTRAP }; for (unsigned i = 0; i < sizeof sigs / sizeof *sigs; ++i) signal(sigs[i], sigHandler); }
   // resource guard: a runaway self-append must be a bounded, classified failure
-  struct rlimit rl; rl.rlim_cur = rl.rlim_max = 900; setrlimit(RLIMIT_CPU, &rl);
+  struct rlimit rl; rl.rlim_cur = rl.rlim_max = 7200; setrlimit(RLIMIT_CPU, &rl);
 }
 
 void finish() {
